@@ -24,6 +24,7 @@ COMMON_ASSUME = [
     "generated-input search never proves absence: the claim covers only the cases generated, counted above",
 ]
 
+RACE_ENV = {"GORACE": "halt_on_error=1 exitcode=66"}
 PROPS = {}
 
 PROPS["C14"] = {
@@ -87,7 +88,7 @@ PROPS["C09"] = {
             "threshold rules on TX:score / TX:acc) x requests with repeated and case-variant argument names; oracle = reference evaluator "
             "(final TX map, fired ids, match data, interruption, HIGHEST_SEVERITY, message expansion) and the accounting identity "
             "tx.acc == sum(increment x observed matches); non-trivial = some rule carrying actions matched >= 2 values; distinct = distinct encodings",
-    "essential": {"all": ["rule>=2-matches", "chain-starter>=2-matches", "multimatch>=2-matches", "macro-key", "threshold-rule-blocked",
+    "essential": {"all": ["rule>=2-matches", "chain-starter>=2-matches", "multimatch>=2-matches", "macro-key", "signed-macro-operand", "threshold-rule-blocked",
                           "severity-set", "accounting-identity-checked", "msg-macro-checked", "engine:DetectionOnly"]},
     "assumptions": COMMON_ASSUME + [
         "order-sensitive effects over several matches (assigning %{MATCHED_VAR}) and arithmetic on non-numeric values are not generated",
@@ -352,7 +353,7 @@ PROPS["C18"] = {
 PROPS["C19"] = {
     "level": "exploration",
     "runs": [run("TestC19", (6000, 5), (200000, 14)), run("TestC19Conc", (60, 2), (1500, 4)),
-             run("TestC19Conc", (40, 1), (1500, 4), variant="race", tiers=("thorough",))],
+             run("TestC19Conc", (30, 2), (1500, 4), variant="race", env=RACE_ENV)],
     "rule": "cases = audit engine On|Off|RelevantOnly (configured, optionally switched by ctl:auditEngine) x relevant-status pattern x any "
             "valid part subset (optionally changed by ctl:auditLogParts +X / -X / absolute) x format JSON|Native|JsonLegacy|OCSF x 1..5 rules "
             "with every combination of log / nolog / auditlog / noauditlog, single- and multi-valued, conditional or not, optional deny with "
@@ -361,18 +362,19 @@ PROPS["C19"] = {
             "record; oracle = record count per the decision table (status source: real or would-be interruption, else response), record "
             "carries the transaction id and exactly the configured parts, lists exactly the fired audit-enabled rules, is well-formed (one "
             "parsable JSON line / native sections A..Z with one boundary id), error callback once per fired log-enabled rule; the "
-            "concurrent run has 2..8 goroutines log through one serial or concurrent writer and parses the shared file back; "
+            "concurrent run has 2..8 goroutines log through one serial, concurrent or HTTPS writer (an in-process collector) and parses the "
+            "shared file / the received POST bodies back (exactly one intact record per transaction; for the HTTPS writer, whose client gives "
+            "up after 1 s, a missing record is tolerated but a damaged, foreign or repeated one is not), also under the race detector; "
             "non-trivial = RelevantOnly or a ctl switch or hostile bytes logged or log/audit flags that differ",
     "essential": {"all": ["audit:On", "audit:Off", "audit:RelevantOnly", "records:0", "records:1", "format:JSON", "format:Native", "format:OCSF", "format:JsonLegacy",
                           "ctl-auditEngine", "ctl-auditLogParts:+", "ctl-auditLogParts:-", "interrupted", "would-be-interruption-status", "log-and-audit-flags-differ",
-                          "hostile-bytes-logged", "multi-value-rule", "concurrent:Serial/JSON", "concurrent:Serial/Native", "concurrent:Concurrent/JSON"]},
+                          "hostile-bytes-logged", "multi-value-rule", "concurrent:Serial/JSON", "concurrent:Serial/Native", "concurrent:Concurrent/JSON", "concurrent:HTTPS/JSON", "concurrent:HTTPS/Native"]},
     "assumptions": COMMON_ASSUME + [
         "ProcessLogging is called exactly once per transaction (precondition of the statement); RelevantOnly is always configured with a pattern",
         "native records are delimited by their own random boundary id: logged data that merely looks like a boundary is content",
     ],
 }
 
-RACE_ENV = {"GORACE": "halt_on_error=1 exitcode=66"}
 
 PROPS["C06"] = {
     "level": "exploration",
